@@ -125,6 +125,13 @@ def worker_init():
     base.load_repo()
 
 
+FF_TEMPLATES = [
+    "if a:\n{1}b\n{1}if c:\n{2}d\n{1}e\nf\n", "def f():\n{1}x = 1\n{1}return x\n", "class A:\n{1}def m(self):\n{2}pass\n{1}y = 2\nz = 3\n",
+    "while a:\n{1}try:\n{2}b\n{1}except E:\n{2}c\n{1}else:\n{2}d\n", "for i in y:\n{1}if i:\n{2}continue\n{1}x = (1,\n{2}2)\n{1}# c\n{1}z\n",
+    "x = 1\nif a:\n{1}b\n\n{1}c\nelse:\n{1}d\n", "with a:\n{1}with b:\n{2}c\n{2}d\n{1}e\n",
+]
+
+
 def run_shard(shard):
     acc = Acc()
     if "replay" in shard:
@@ -144,6 +151,21 @@ def run_shard(shard):
             check_case(acc, s, "eval", "seed-eval")
         for s in ("\u00b5 = 2\n", "x.\ufb01 = 1\n", "def f(\u00b5=1): return \u00b5\n", "import \u00b5 as \ufb01\n", "\u00e9 = f(x)\n", "x\U000e0100 = 1\n"):
             check_case(acc, s, "exec", "unicode-identifier")
+        # indentation that contains form feeds: a form feed resets the column, so only what follows the last one counts
+        for tmpl in FF_TEMPLATES:
+            for unit in ("    ", "\t", "  ", " "):
+                plain = tmpl.replace("{1}", unit).replace("{2}", unit * 2)
+                check_case(acc, plain, "exec", "formfeed-indent")
+                lines = plain.split("\n")
+                for _ in range(shard.get("mutants", 3) * 2):
+                    out = []
+                    for ln in lines:
+                        if ln[:1] in (" ", "\t") and rnd.random() < 0.5:
+                            ln = rnd.choice(["", " ", "  ", "\t", "    ", " \t", "        "]) + "\f" + ln
+                        elif ln and rnd.random() < 0.1:
+                            ln = rnd.choice(["\f", " \f", "\f\f", "  \f"]) + ln
+                        out.append(ln)
+                    check_case(acc, "\n".join(out), "exec", "formfeed-indent")
         for d in (3, 8, 12, 16, 20, 23, 25, 27, 30, 34, 40, 50):
             for o, c in ("()", "[]", "{}"):
                 check_case(acc, "x = " + o * d + ("1" if o != "{" else "") + c * d + "\n", "exec", "nesting")
